@@ -19,6 +19,7 @@ import EsbuildModel.Impl.ChunkHash
 import EsbuildModel.Impl.Order
 import EsbuildModel.Impl.Stdio
 import EsbuildModel.Impl.NumPrint
+import EsbuildModel.Impl.Slots
 
 open EsbuildModel
 
@@ -45,6 +46,7 @@ def dispatch (kernel : String) (args : List String) : String :=
   | "order" => Order.driver args
   | "stdio" => Stdio.driver args
   | "numprint" => NumPrint.driver args
+  | "slots" => Slots.driver args
   | _ => "bad-kernel"
 
 partial def loop (hin hout : IO.FS.Stream) : IO Unit := do
